@@ -205,6 +205,7 @@ Fixpoint has_type (t : ty) (v : val) {struct t} : bool :=
 
 Section Enc.
 Variable enc_i : prim -> Z -> list N.    (* how integers are written: implementation or document *)
+Variable enc_idx : N -> list N.          (* how a union case index is written: varint (C++, doc) or one raw byte (Python) *)
 
 Fixpoint enc_with (t : ty) (v : val) {struct t} : list N :=
   match t, v with
@@ -212,9 +213,9 @@ Fixpoint enc_with (t : ty) (v : val) {struct t} : list N :=
   | TEnum b, VInt z => enc_i b z
   | TOpt _, VNone => [0]
   | TOpt e, VSome x => 1 :: enc_with e x
-  | TUnion hn cs, VNone => venc 0
+  | TUnion hn cs, VNone => enc_idx 0
   | TUnion hn cs, VCase i x =>
-      venc (i + if hn then 1 else 0) ++ pick (fun c => enc_with c x) [] cs i
+      enc_idx (i + if hn then 1 else 0) ++ pick (fun c => enc_with c x) [] cs i
   | TVec e, VSeq xs => venc (N.of_nat (length xs)) ++ concat (map (enc_with e) xs)
   | TFixVec n e, VSeq xs => concat (map (enc_with e) xs)
   | TArr rank e, VArr sh xs => concat (map venc sh) ++ concat (map (enc_with e) xs)
@@ -229,8 +230,10 @@ Fixpoint enc_with (t : ty) (v : val) {struct t} : list N :=
   end.
 End Enc.
 
-Definition enc := enc_with enc_int.          (* what C++, Python and MATLAB write *)
-Definition enc_doc := enc_with enc_int_doc.  (* docs/reference/binary.md read literally *)
+Definition enc := enc_with enc_int venc.          (* what C++ (and the reference) writes *)
+Definition enc_doc := enc_with enc_int_doc venc.  (* docs/reference/binary.md read literally *)
+(* Python: UnionSerializer writes the case index with write_byte_no_check, i.e. ONE raw byte *)
+Definition enc_py := enc_with enc_int (fun i => [i]).
 
 (* ---------- decoder ---------- *)
 
